@@ -184,7 +184,7 @@ func c13Engine(c *vk.Case, text string) (ov, error) {
 func runC13(r *vk.Run) {
 	r.SetRule("chains `vector(p1) op1 vector(p2) ...` of up to five prime operands joined by any of the 15 binary operators, evaluated as instant queries: (a) unparenthesised, against the harness's own conventional precedence-climbing evaluator over optional values " +
 		"(^ right-assoc and tightest, then * / %, + -, comparisons, and/unless, or; equal levels left to right); (b) every full parenthesisation (all Catalan trees), against direct tree evaluation. " +
-		"quick: all chains of <=3 operands + 3000 sampled chains of 4-5; thorough: ALL 54240 operator combinations of <=5 operands x 2 operand tuples. non-trivial = distinct chains for which at least two parenthesisations evaluate differently.")
+		"quick: all chains of <=3 operands + 3000 sampled chains of 4-5; thorough: ALL 54240 operator combinations of <=5 operands x 6 operand tuples, all parenthesisations for <=4 operands and for a third of the 5-operand chains. non-trivial = distinct chains for which at least two parenthesisations evaluate differently.")
 	r.Assume("a false comparison without bool yields what calibration observed (0 or absent)", "known finding F13 is matched only by its exact defect model: correct levels, every level right-associative")
 	env0, err := calibrateMetric()
 	if err != nil {
@@ -194,6 +194,9 @@ func runC13(r *vk.Run) {
 	mode := env0.CmpFalse
 	r.SetExtra("calibration", map[string]any{"cmp_false": mode})
 	tuples := [][]float64{{2, 3, 5, 7, 11}, {13, 2, 7, 3, 5}}
+	if r.Thorough() {
+		tuples = append(tuples, []float64{7, 11, 2, 13, 3}, []float64{3, 2, 2, 5, 7}, []float64{5, 3, 11, 2, 2}, []float64{2, 5, 3, 3, 13})
+	}
 
 	checkChain := func(c *vk.Case, vals []float64, ops []string, withTrees bool) {
 		n := len(vals)
@@ -304,7 +307,7 @@ func runC13(r *vk.Run) {
 			for i, k := range idx {
 				ops[i] = c13Ops[k]
 			}
-			checkChain(c, tuples[j.tuple][:j.n], append([]string(nil), ops...), j.n <= 3 || (c.Thorough() && idx[len(idx)-1]%5 == 0))
+			checkChain(c, tuples[j.tuple][:j.n], append([]string(nil), ops...), j.n <= 3 || (c.Thorough() && (j.n == 4 || idx[len(idx)-1]%3 == 0)))
 			p := len(idx) - 1
 			for p >= 1 {
 				idx[p]++
@@ -323,7 +326,7 @@ func runC13(r *vk.Run) {
 		}
 	})
 
-	r.Phase("sampled", r.N(3000, 20000), func(c *vk.Case) {
+	r.Phase("sampled", r.N(3000, 400000), func(c *vk.Case) {
 		n := c.Rng.Range(4, 5)
 		ops := make([]string, n-1)
 		for i := range ops {
